@@ -251,6 +251,37 @@ func harnessC09Whole() {
 	verif.Assert(sentence(b), "a text that is not (as a whole) a sentence of the documented pattern grammar is accepted")
 }
 
+// c09Frames: fixed openings and closings of the constructs whose shortest instances are longer than the
+// whole-text bound: category and class names, repetition bounds, hexadecimal escapes, groups.
+var c09Frames = [][2]string{
+	{"\\p{", "}"}, {"\\P{", "}"}, {"[\\p{", "}]"}, {"[^a\\p{", "}]"},
+	{"[[:", ":]]"}, {"[^[:", ":]]"}, {"[:", ":]"},
+	{"a{", "}"}, {"(ab){", "}?"},
+	{"\\x", ""}, {"[\\x", "]"}, {"[a-\\x", "]"},
+	{"(a|", ")*"}, {"[^", "]+"},
+}
+
+// harnessC09Framed: the same assertion as harnessC09Whole on texts made of one of the fixed frames around
+// up to c09FrameN arbitrary printable characters: an unknown category or class name, a malformed bound or
+// escape inside the frame must make the whole text rejected.
+func harnessC09Framed() {
+	fr := c09Frames[verif.Pick("frame", len(c09Frames))]
+	n := verif.Len("n", 0, c09FrameN)
+	mid := verif.Bytes("p", n)
+	for i := range mid {
+		verif.Assume(verif.And(mid[i] >= 0x20, mid[i] <= 0x7E))
+	}
+	b := append(append([]byte(fr[0]), mid...), fr[1]...)
+	res, err := Parse(verif.String(b))
+	if err != nil {
+		verif.Reach("rejected")
+		return
+	}
+	verif.Reach("accepted")
+	_ = res
+	verif.Assert(sentence(b), "a text that is not (as a whole) a sentence of the documented pattern grammar is accepted: "+fr[0]+"..."+fr[1])
+}
+
 // harnessC09Meaningless: grammatical but meaningless patterns are rejected with an error naming the
 // problem: [x-y] with x > y, and {n,m} with n > m; the meaningful ones are accepted.
 func harnessC09Meaningless() {
